@@ -9,7 +9,7 @@ PATCH=$WT/seed_demo/patch.diff
 git diff --quiet && { echo "worktree has no change applied: applying"; git apply "$PATCH" || exit 2; }
 echo "--- files changed:"; git diff --stat | tail -3
 go build ./... && echo "build ok" || { echo "BUILD FAILS"; exit 1; }
-( cd src/free5gclib && go test -vet=off -count=1 ./... 2>&1 | grep -v "no test files" | tail -3 )
+( cd src/free5gclib && go test -vet=off -count=1 ./nas/... 2>&1 | grep -v "no test files" | tail -3 )
 echo "--- demo WITH the change (must fail):"
 ( cd $(dirname $DEMO) && go test -vet=off -count=1 "$@" ./$(basename $DEMO)/ 2>&1 | tail -6 ); 
 git apply -R "$PATCH" || { echo "cannot revert"; exit 2; }
